@@ -37,6 +37,12 @@ def new_ex(prog, havoc_mime=True, stubs=('filter_string',), **kw):
     return ex
 
 
+# path segments of the traversal grammar (C01/C02/C13): dot segments, names, percent-encoded dots / separators in both
+# hex cases, mixed forms, a double-encoded dot
+SEGMENT_WORDS = [b'', b'.', b'a', b'..', b'ab', b'%2e', b'%2E', b'%2f', b'%5c', b'.%2e', b'%2e.', b'.%2E', b'%2E.', b'..%2f', b'%2f..', b'..%5c',
+                 b'%252e', b'%2e%2e', b'%2E%2E', b'%2e%2E', b'%2E%2e']
+
+
 def build_state(params, B, concrete=None):
     """params: method, entry, range ('none'|'open'|sym), tlen (exact target length or None)
     returns (state, request, syms)"""
@@ -45,6 +51,18 @@ def build_state(params, B, concrete=None):
         target = S(concrete['target'])
     elif params.get('fixed_target'):
         target = S(params['fixed_target'])
+    elif params.get('segs') is not None:
+        # grammar family: lead + seg ('/' seg)*, every segment any word of SEGMENT_WORDS of the stated length
+        target = S(params.get('lead', '/'))
+        for i, L in enumerate(params['segs']):
+            if i: target = target.concat(S('/'))
+            words = [w for w in SEGMENT_WORDS if len(w) == L]
+            if L == 0 or not words: continue
+            seg = SymStr.fresh('g%d' % i, L, cons, exact_len=L, alphabet=sorted(set(b for w in words for b in w)))
+            cons.append(z3.Or(*[zb(seg.eq(S(w))) for w in words]))
+            sy['seg%d' % i] = seg
+            target = target.concat(seg)
+        if params.get('tail'): target = target.concat(S(params['tail']))
     else:
         kw = dict(alphabet=target_alphabet)
         if params.get('alphabet'):
